@@ -168,13 +168,85 @@ static void one(vh::Rng & r, vh::Out & out)
   }
 }
 
+static Eigen::Matrix3d rzyx(const Eigen::Vector3d & a)
+{
+  double cr = std::cos(a[0]), sr = std::sin(a[0]), cp = std::cos(a[1]), sp = std::sin(a[1]), cy = std::cos(a[2]), sy = std::sin(a[2]);
+  Eigen::Matrix3d R;
+  R << cy * cp, cy * sp * sr - sy * cr, cy * sp * cr + sy * sr, sy * cp, sy * sp * sr + cy * cr, sy * sp * cr - cy * sr, -sp, cp * sr, cp * cr;
+  return R;
+}
+static void generic(vh::Rng & r, vh::Out & out)
+{
+  auto u = [&]() {return (double)r.range(-1000000, 1000000) / 1000000.0;};
+  auto units = [](double v) {double x = std::fabs(v) * 1e12; return x < 2e9 ? (long long)std::llround(x) : 2000000000LL;};
+  std::vector<long long> res;
+  bool ordered = true;
+  // reductions of real-valued pose / twist
+  {
+    Pose3D p; Twist3D t;
+    for (int i = 0; i < 3; ++i) {p.position[i] = u() * 1e4; p.orientation[i] = u() * 1.4; t.linearSpeeds[i] = u() * 50; t.angularSpeeds[i] = u() * 3;}
+    Eigen::Matrix6d G; for (int i = 0; i < 6; ++i) {for (int j = 0; j < 6; ++j) {G(i, j) = u() * 10;}}
+    p.covariance = G * G.transpose(); t.covariance = G.transpose() * G;
+    Pose2D p2 = toPose2D(p); Twist2D t2 = toTwist2D(t); Position3D q = toPosition3D(p);
+    int idx[3] = {0, 1, 5};
+    double e = std::max({std::fabs(p2.position.x() - p.position.x()), std::fabs(p2.position.y() - p.position.y()), std::fabs(p2.yaw - p.orientation.z()),
+                         std::fabs(t2.linearSpeeds.x() - t.linearSpeeds.x()), std::fabs(t2.linearSpeeds.y() - t.linearSpeeds.y()),
+                         std::fabs(t2.angularSpeed - t.angularSpeeds.z()), (q.position - p.position).norm(), (q.covariance - p.covariance.block<3, 3>(0, 0)).norm()});
+    for (int i = 0; i < 3; ++i) {for (int j = 0; j < 3; ++j) {
+        e = std::max({e, std::fabs(p2.covariance(i, j) - p.covariance(idx[i], idx[j])), std::fabs(t2.covariance(i, j) - t.covariance(idx[i], idx[j]))});}}
+    Eigen::Matrix3d M3 = G.block<3, 3>(0, 0) * G.block<3, 3>(0, 0).transpose();
+    e = std::max(e, (toSe2Covariance(toSe3Covariance(M3)) - M3).norm());
+    res.push_back(units(e));
+  }
+  // rigid transform of a pose: position and attitude (as a rotation); identity; composition
+  {
+    auto rndT = [&]() {
+        Eigen::Vector3d ax(u(), u(), u()); if (ax.norm() < 1e-3) {ax = Eigen::Vector3d::UnitZ();}
+        Eigen::Affine3d T = Eigen::Affine3d::Identity();
+        T.linear() = Eigen::AngleAxisd(u() * M_PI, ax.normalized()).toRotationMatrix();
+        T.translation() = Eigen::Vector3d(u() * 100, u() * 100, u() * 100);
+        return T;
+      };
+    Pose3D p; p.position = Eigen::Vector3d(u() * 100, u() * 100, u() * 100);
+    p.orientation = Eigen::Vector3d(u() * 3.1, u() * 1.2, u() * 3.1);
+    p.covariance = Eigen::Matrix6d::Identity();
+    Eigen::Affine3d T1 = rndT(), T2 = rndT();
+    auto safe = [&](const Eigen::Affine3d & T, const Pose3D & q) {return std::fabs((T.linear() * rzyx(q.orientation))(2, 0)) < 0.995;};   // away from gimbal lock after transformation
+    if (safe(T1, p)) {
+      Pose3D a = T1 * p;
+      res.push_back(units((a.position - (T1 * p.position)).norm() / 100));
+      res.push_back(units((rzyx(a.orientation) - T1.linear() * rzyx(p.orientation)).cwiseAbs().maxCoeff()));
+      Pose3D id = Eigen::Affine3d::Identity() * p;
+      res.push_back(units((id.position - p.position).norm() / 100)); res.push_back(units((rzyx(id.orientation) - rzyx(p.orientation)).cwiseAbs().maxCoeff()));
+      if (safe(T2, a) && safe(T2 * T1, p)) {
+        Pose3D b = T2 * a, c = (T2 * T1) * p;
+        res.push_back(units((b.position - c.position).norm() / 100)); res.push_back(units((rzyx(b.orientation) - rzyx(c.orientation)).cwiseAbs().maxCoeff()));
+      }
+    }
+  }
+  // ellipse of a random PSD covariance, rank-deficient included
+  {
+    Eigen::Matrix2d G; G << u() * 5, u() * 5, u() * 5, u() * 5;
+    if (r.coin(1, 5)) {G.col(1) = G.col(0) * u();}
+    Eigen::Matrix2d C = G * G.transpose();
+    double sigma = 0.1 + (u() + 1) * 4.9;
+    Ellipse e(Eigen::Vector2d(3, -4), C, sigma);
+    double th = e.getOrientation(), a = e.getMajorRadius(), b = e.getMinorRadius();
+    if (!(a >= b - 1e-9 * (1 + a) && b >= -1e-9)) {ordered = false;}
+    Eigen::Matrix2d Rr; Rr << std::cos(th), -std::sin(th), std::sin(th), std::cos(th);
+    Eigen::Matrix2d recon = Rr * Eigen::Vector2d(a * a, b * b).asDiagonal() * Rr.transpose() / (sigma * sigma);
+    res.push_back(units((recon - C).cwiseAbs().maxCoeff() / std::max(1e-9, C.cwiseAbs().maxCoeff())));
+  }
+  out.put(vh::Ev("generic").vec("res", res).b("ordered", ordered));
+}
+
 int main(int argc, char ** argv)
 {
   if (argc != 5 || std::string(argv[1]) != "random") {std::fprintf(stderr, "usage: drive_pose random seed n out\n"); return 3;}
   vh::Rng r(std::strtoull(argv[2], nullptr, 10));
   int n = std::atoi(argv[3]);
   vh::Out out(argv[4]);
-  for (int k = 0; k < n; ++k) {if (k % 100 == 0) {out.put(vh::Ev("Reset"));} one(r, out);}
+  for (int k = 0; k < n; ++k) {if (k % 100 == 0) {out.put(vh::Ev("Reset"));} one(r, out); generic(r, out);}
   std::printf("%lld\n", out.lines);
   return 0;
 }
